@@ -8,7 +8,10 @@ def driver():
 
 
 def generate(path, n, mode, count, seed, sym=0):
-    p = subprocess.run([driver(), path, str(n), mode, str(count), str(seed), str(sym)], capture_output=True, text=True, timeout=3600)
+    try:
+        p = subprocess.run([driver(), path, str(n), mode, str(count), str(seed), str(sym)], capture_output=True, text=True, timeout=1800)
+    except subprocess.TimeoutExpired:
+        return -9, "driver did not finish within 1800 s"
     return p.returncode, p.stderr[-500:]
 
 
